@@ -9,7 +9,7 @@
    the model. *)
 From Coq Require Import Reals List Bool.
 From Coquelicot Require Import Coquelicot.
-From GS Require Import Num Loops C18_Model C18_RInst C18_Analysis C18_Proofs C18_Pipeline C18_Loglik C18_DerivNear C18_Examples C18_FitBook.
+From GS Require Import Num Loops C18_Model C18_RInst C18_Analysis C18_Proofs C18_Pipeline C18_Loglik C18_DerivNear C18_Examples C18_FitBook Formulas Formulas_gen C18_Tie.
 Open Scope R_scope.
 
 (* on the normalize range, normalize returns a number, that number lies in the coded denormalize range, and
@@ -191,3 +191,136 @@ Theorem C18_fit_dict_is_state :
     length (fst (fit_book skipm trials xfinal st)) = length st.
 Proof. exact @fit_dict_is_state. Qed.
 Print Assumptions C18_fit_dict_is_state.
+
+(* ------------------------------------------------------------------------------------------------------------------
+   Tie to the source: [LogNormal_normalize] ... [Manly_derivative] are the formulas of normalizer/methods.py translated
+   to Gallina on every run (coq/gen/Formulas_gen.v).  They equal the hand model's maps: for every number type where the
+   two terms coincide by unfolding, at the real instance (every lmbda, every datum, no side condition) for the six that
+   use np.log1p / np.expm1 (translated as ln (1 + x) / exp x - 1; oracle functions in the hand model). *)
+Theorem C18_tie_LogNormal_normalize :
+  forall (T : Type) (O : NumOps T) (p : npar T) (x : T), LogNormal_normalize O x = normalize_raw O KLogNormal p x.
+Proof. exact @LogNormal_normalize_tie. Qed.
+Print Assumptions C18_tie_LogNormal_normalize.
+
+Theorem C18_tie_LogNormal_denormalize :
+  forall (T : Type) (O : NumOps T) (p : npar T) (x : T), LogNormal_denormalize O x = denormalize_raw O KLogNormal p x.
+Proof. exact @LogNormal_denormalize_tie. Qed.
+Print Assumptions C18_tie_LogNormal_denormalize.
+
+Theorem C18_tie_LogNormal_derivative :
+  forall (T : Type) (O : NumOps T) (p : npar T) (x : T), LogNormal_derivative O x = derivative_raw O KLogNormal p x.
+Proof. exact @LogNormal_derivative_tie. Qed.
+Print Assumptions C18_tie_LogNormal_derivative.
+
+Theorem C18_tie_BoxCox_normalize :
+  forall (T : Type) (O : NumOps T) (p : npar T) (x : T), BoxCox_normalize O (lmbda p) x = normalize_raw O KBoxCox p x.
+Proof. exact @BoxCox_normalize_tie. Qed.
+Print Assumptions C18_tie_BoxCox_normalize.
+
+Theorem C18_tie_BoxCox_denormalize :
+  forall (T : Type) (O : NumOps T) (p : npar T) (x : T), BoxCox_denormalize O (lmbda p) x = denormalize_raw O KBoxCox p x.
+Proof. exact @BoxCox_denormalize_tie. Qed.
+Print Assumptions C18_tie_BoxCox_denormalize.
+
+Theorem C18_tie_BoxCox_derivative :
+  forall (T : Type) (O : NumOps T) (p : npar T) (x : T), BoxCox_derivative O (lmbda p) x = derivative_raw O KBoxCox p x.
+Proof. exact @BoxCox_derivative_tie. Qed.
+Print Assumptions C18_tie_BoxCox_derivative.
+
+Theorem C18_tie_BoxCoxShift_normalize :
+  forall (T : Type) (O : NumOps T) (p : npar T) (x : T), BoxCoxShift_normalize O (lmbda p) (shift p) x = normalize_raw O KBoxCoxShift p x.
+Proof. exact @BoxCoxShift_normalize_tie. Qed.
+Print Assumptions C18_tie_BoxCoxShift_normalize.
+
+Theorem C18_tie_BoxCoxShift_denormalize :
+  forall (T : Type) (O : NumOps T) (p : npar T) (x : T), BoxCoxShift_denormalize O (lmbda p) (shift p) x = denormalize_raw O KBoxCoxShift p x.
+Proof. exact @BoxCoxShift_denormalize_tie. Qed.
+Print Assumptions C18_tie_BoxCoxShift_denormalize.
+
+Theorem C18_tie_BoxCoxShift_derivative :
+  forall (T : Type) (O : NumOps T) (p : npar T) (x : T), BoxCoxShift_derivative O (shift p) (lmbda p) x = derivative_raw O KBoxCoxShift p x.
+Proof. exact @BoxCoxShift_derivative_tie. Qed.
+Print Assumptions C18_tie_BoxCoxShift_derivative.
+
+Theorem C18_tie_YeoJohnson_derivative :
+  forall (T : Type) (O : NumOps T) (p : npar T) (x : T), YeoJohnson_derivative O (lmbda p) x = derivative_raw O KYeoJohnson p x.
+Proof. exact @YeoJohnson_derivative_tie. Qed.
+Print Assumptions C18_tie_YeoJohnson_derivative.
+
+Theorem C18_tie_Modulus_derivative :
+  forall (T : Type) (O : NumOps T) (p : npar T) (x : T), Modulus_derivative O (lmbda p) x = derivative_raw O KModulus p x.
+Proof. exact @Modulus_derivative_tie. Qed.
+Print Assumptions C18_tie_Modulus_derivative.
+
+Theorem C18_tie_Manly_derivative :
+  forall (T : Type) (O : NumOps T) (p : npar T) (x : T), Manly_derivative O (lmbda p) x = derivative_raw O KManly p x.
+Proof. exact @Manly_derivative_tie. Qed.
+Print Assumptions C18_tie_Manly_derivative.
+
+Theorem C18_tie_YeoJohnson_normalize :
+  forall (p : npar R) (x : R), YeoJohnson_normalize Rops (lmbda p) x = normalize_raw Rops KYeoJohnson p x.
+Proof. exact YeoJohnson_normalize_tie. Qed.
+Print Assumptions C18_tie_YeoJohnson_normalize.
+
+Theorem C18_tie_YeoJohnson_denormalize :
+  forall (p : npar R) (x : R), YeoJohnson_denormalize Rops (lmbda p) x = denormalize_raw Rops KYeoJohnson p x.
+Proof. exact YeoJohnson_denormalize_tie. Qed.
+Print Assumptions C18_tie_YeoJohnson_denormalize.
+
+Theorem C18_tie_Modulus_normalize :
+  forall (p : npar R) (x : R), Modulus_normalize Rops (lmbda p) x = normalize_raw Rops KModulus p x.
+Proof. exact Modulus_normalize_tie. Qed.
+Print Assumptions C18_tie_Modulus_normalize.
+
+Theorem C18_tie_Modulus_denormalize :
+  forall (p : npar R) (x : R), Modulus_denormalize Rops (lmbda p) x = denormalize_raw Rops KModulus p x.
+Proof. exact Modulus_denormalize_tie. Qed.
+Print Assumptions C18_tie_Modulus_denormalize.
+
+Theorem C18_tie_Manly_normalize :
+  forall (p : npar R) (x : R), Manly_normalize Rops (lmbda p) x = normalize_raw Rops KManly p x.
+Proof. exact Manly_normalize_tie. Qed.
+Print Assumptions C18_tie_Manly_normalize.
+
+Theorem C18_tie_Manly_denormalize :
+  forall (p : npar R) (x : R), Manly_denormalize Rops (lmbda p) x = denormalize_raw Rops KManly p x.
+Proof. exact Manly_denormalize_tie. Qed.
+Print Assumptions C18_tie_Manly_denormalize.
+
+(* The central theorems once more, now about the translated source formulas: [src_normalize k p], [src_denormalize k p],
+   [src_derivative k p] select, by class, the generated definition instantiated at R with the parameters of p
+   (c18/C18_Tie.v; the parameter-free base class is the identity).  The ranges are those of the hand model (the *_range
+   properties return tuples and are not in the translation table; tied by execution). *)
+Theorem C18_src_denorm_norm :
+  forall (k : nkind) (p : npar R) (x : R), in_range Rops (norm_range Rops k p) x = true ->
+    in_range Rops (denorm_range Rops k p) (src_normalize k p x) = true /\
+    src_denormalize k p (src_normalize k p x) = x.
+Proof. exact src_denorm_norm. Qed.
+Print Assumptions C18_src_denorm_norm.
+
+Theorem C18_src_norm_denorm :
+  forall (k : nkind) (p : npar R) (y : R), in_range Rops (denorm_range Rops k p) y = true ->
+    in_range Rops (norm_range Rops k p) (src_denormalize k p y) = true /\
+    src_normalize k p (src_denormalize k p y) = y.
+Proof. exact src_norm_denorm. Qed.
+Print Assumptions C18_src_norm_denorm.
+
+Theorem C18_src_strictly_increasing :
+  forall (k : nkind) (p : npar R) (x1 x2 : R),
+    in_range Rops (norm_range Rops k p) x1 = true -> in_range Rops (norm_range Rops k p) x2 = true ->
+    x1 < x2 -> src_normalize k p x1 < src_normalize k p x2.
+Proof. exact src_strictly_increasing. Qed.
+Print Assumptions C18_src_strictly_increasing.
+
+Theorem C18_src_ranges :
+  forall (k : nkind) (p : npar R) (y : R),
+    (exists x, in_range Rops (norm_range Rops k p) x = true /\ src_normalize k p x = y) <->
+    in_range Rops (denorm_range Rops k p) y = true.
+Proof. exact src_ranges. Qed.
+Print Assumptions C18_src_ranges.
+
+Theorem C18_src_derivative :
+  forall (k : nkind) (p : npar R) (x : R), in_range Rops (norm_range Rops k p) x = true -> exact_branch k p x ->
+    is_derive (src_normalize k p) x (src_derivative k p x).
+Proof. exact src_derivative_exact. Qed.
+Print Assumptions C18_src_derivative.
